@@ -4,24 +4,24 @@ From Coq Require Import List Bool Arith Lia.
 Import ListNotations.
 
 (* ------------------------------------------------------------------ lists *)
-Lemma nth_error_set_nth_eq : forall A (l : list A) n x y, nth_error l n = Some y -> nth_error (set_nth n x l) n = Some x.
+Lemma nth_error_set_nth_eq : forall A (l : list A) n x y, nth_error l n = Some y -> nth_error (lset_nth n x l) n = Some x.
 Proof. induction l as [|a l IH]; intros [|n] x y H; simpl in *; try discriminate; eauto. Qed.
-Lemma nth_error_set_nth_neq : forall A (l : list A) n m x, n <> m -> nth_error (set_nth n x l) m = nth_error l m.
+Lemma nth_error_set_nth_neq : forall A (l : list A) n m x, n <> m -> nth_error (lset_nth n x l) m = nth_error l m.
 Proof. induction l as [|a l IH]; intros [|n] [|m] x H; simpl in *; try reflexivity; try congruence. apply IH; congruence. Qed.
-Lemma length_set_nth : forall A (l : list A) n x, length (set_nth n x l) = length l.
+Lemma length_set_nth : forall A (l : list A) n x, length (lset_nth n x l) = length l.
 Proof. induction l as [|a l IH]; intros [|n] x; simpl; auto. Qed.
-Lemma Forall_set_nth : forall A (P : A -> Prop) l n x, Forall P l -> P x -> Forall P (set_nth n x l).
+Lemma Forall_set_nth : forall A (P : A -> Prop) l n x, Forall P l -> P x -> Forall P (lset_nth n x l).
 Proof. induction l as [|a l IH]; intros [|n] x Hl Hx; simpl; auto; inversion Hl; subst; constructor; auto. Qed.
 Lemma Forall_nth_error : forall A (P : A -> Prop) l n x, Forall P l -> nth_error l n = Some x -> P x.
 Proof. induction l as [|a l IH]; intros [|n] x Hl H; simpl in *; try discriminate; inversion Hl; subst; eauto. congruence. Qed.
 
-(* sum of a per-pc quantity over the threads *)
-Fixpoint cnt (f : pc -> nat) (l : list thread) : nat :=
+(* sum of a per-lpc quantity over the threads *)
+Fixpoint cnt (f : lpc -> nat) (l : list lthread) : nat :=
   match l with [] => 0 | t :: r => f (t_pc t) + cnt f r end.
-Lemma total_weight_cnt : forall l, total_weight l = cnt weight l.
+Lemma total_weight_cnt : forall l, ltotal_weight l = cnt lweight l.
 Proof. induction l; simpl; auto. Qed.
 Lemma cnt_set_nth : forall f l n th th', nth_error l n = Some th ->
-  cnt f (set_nth n th' l) + f (t_pc th) = cnt f l + f (t_pc th').
+  cnt f (lset_nth n th' l) + f (t_pc th) = cnt f l + f (t_pc th').
 Proof.
   induction l as [|a l IH]; intros [|n] th th' H; simpl in *; try discriminate.
   - inversion H; subst. lia.
@@ -34,53 +34,53 @@ Proof. intros. pose proof (cnt_ge f l n th H0). lia. Qed.
 
 (* ------------------------------------------------------------------ classifications of pcs *)
 Definition b2n (b : bool) : nat := if b then 1 else 0.
-Definition in_stop (p : pc) : bool :=
+Definition in_stop (p : lpc) : bool :=
   match p with StFlag | StClose | StWindow | StNil | StJoin | StFlush | StFlushing | StReturn _ => true | _ => false end.
-Definition after_flag (p : pc) : bool :=
+Definition after_flag (p : lpc) : bool :=
   match p with StClose | StWindow | StNil | StJoin | StFlush | StFlushing | StReturn _ => true | _ => false end.
-Definition stop_working (p : pc) : bool :=
+Definition stop_working (p : lpc) : bool :=
   match p with StClose | StWindow | StNil | StJoin | StFlush | StFlushing => true | _ => false end.
-Definition winner_pending (p : pc) : bool :=
+Definition winner_pending (p : lpc) : bool :=
   match p with StClose | StWindow | StNil | StJoin | StReturn false => true | _ => false end.
-Definition busy (p : pc) : bool :=
+Definition busy (p : lpc) : bool :=
   match p with PrBusy | CoBusy | WkBusy | StFlushing | SyBusyT | SyBusyU | RgBusy => true | _ => false end.
-Definition is_rg (p : pc) : bool := match p with RgBusy => true | _ => false end.
-Definition is_syu (p : pc) : bool := match p with SyBusyU => true | _ => false end.
-Definition sinky (i : instr) : bool :=
+Definition is_rg (p : lpc) : bool := match p with RgBusy => true | _ => false end.
+Definition is_syu (p : lpc) : bool := match p with SyBusyU => true | _ => false end.
+Definition sinky (i : linstr) : bool :=
   match i with IRLock | IExpand _ | ISubmit _ | ICall _ _ => true | _ => false end.
-Definition codeok (th : thread) : bool :=
+Definition codeok (th : lthread) : bool :=
   match t_code th with
   | [] => true
   | _ => busy (t_pc th) && (negb (is_rg (t_pc th)) || negb (existsb sinky (t_code th)))
   end.
 
-Lemma existsb_sinky_unwind : forall r, existsb sinky (unwind r) = true -> existsb sinky r = true.
+Lemma existsb_sinky_unwind : forall r, existsb sinky (lunwind r) = true -> existsb sinky r = true.
 Proof. induction r as [|i r IH]; simpl; auto. destruct i; simpl; auto; intros; rewrite ?IH; auto using orb_true_r. Qed.
 Lemma existsb_sinky_acts : forall k, existsb sinky (map IAct k) = false.
 Proof. induction k; simpl; auto. Qed.
 
-(* ------------------------------------------------------------------ inversion of one thread step *)
+(* ------------------------------------------------------------------ inversion of one lthread lstep *)
 Lemma tstep_inv : forall c tid ch th S th' S' ev,
-  tstep c tid ch th S = Some (th', S', ev) ->
-  (exists i rest code', t_code th = i :: rest /\ istep c tid i rest S = Some (code', S', ev)
-                        /\ th' = mk (t_pc th) code' (t_arg th))
-  \/ (t_code th = [] /\ exists p' code', pstep c tid ch (t_pc th) (t_arg th) S = Some (p', code', S', ev)
-                        /\ th' = mk p' code' (t_arg th)).
+  ltstep c tid ch th S = Some (th', S', ev) ->
+  (exists i rest code', t_code th = i :: rest /\ listep c tid i rest S = Some (code', S', ev)
+                        /\ th' = lmk (t_pc th) code' (t_arg th))
+  \/ (t_code th = [] /\ exists p' code', lpstep c tid ch (t_pc th) (t_arg th) S = Some (p', code', S', ev)
+                        /\ th' = lmk p' code' (t_arg th)).
 Proof.
-  intros c tid ch th S th' S' ev H. unfold tstep in H. destruct (t_code th) as [|i rest] eqn:Hc.
-  - right. split; auto. destruct (pstep c tid ch (t_pc th) (t_arg th) S) as [[[[p' code'] s'] e']|] eqn:Hp; try discriminate.
+  intros c tid ch th S th' S' ev H. unfold ltstep in H. destruct (t_code th) as [|i rest] eqn:Hc.
+  - right. split; auto. destruct (lpstep c tid ch (t_pc th) (t_arg th) S) as [[[[p' code'] s'] e']|] eqn:Hp; try discriminate.
     inversion H; subst. eauto.
-  - left. destruct (istep c tid i rest S) as [[[code' s'] e']|] eqn:Hi; try discriminate.
+  - left. destruct (listep c tid i rest S) as [[[code' s'] e']|] eqn:Hi; try discriminate.
     inversion H; subst. exists i, rest, code'. auto.
 Qed.
 
-Lemma safe_send_eq : forall s a s', safe_send s a = Some s' -> s' = upd_q s (q s ++ [a]) /\ stopped s = false.
-Proof. unfold safe_send; intros s a s' H. destruct (stopped s); try discriminate. destruct (ptr_nil s); try discriminate.
-  destruct (length (q s) <? cap s); try discriminate. inversion H; auto. Qed.
-Lemma raw_send_eq : forall s a s', raw_send s a = Some s' -> s' = upd_q s (q s ++ [a]).
-Proof. unfold raw_send; intros s a s' H. destruct (length (q s) <? cap s); try discriminate. inversion H; auto. Qed.
+Lemma safe_send_eq : forall s a s', lsafe_send s a = Some s' -> s' = upd_q s (dq s ++ [a]) /\ stopped s = false.
+Proof. unfold lsafe_send; intros s a s' H. destruct (stopped s); try discriminate. destruct (ptr_nil s); try discriminate.
+  destruct (length (dq s) <? dcap s); try discriminate. inversion H; auto. Qed.
+Lemma raw_send_eq : forall s a s', lraw_send s a = Some s' -> s' = upd_q s (dq s ++ [a]).
+Proof. unfold lraw_send; intros s a s' H. destruct (length (dq s) <? dcap s); try discriminate. inversion H; auto. Qed.
 
-(* brute-force case analysis of a pstep / istep equation H *)
+(* brute-force case analysis of a lpstep / listep equation H *)
 Ltac brute H :=
   simpl in H;
   repeat (match type of H with
@@ -88,30 +88,30 @@ Ltac brute H :=
           end);
   try discriminate; inversion H; subst; clear H;
   repeat match goal with
-         | E : safe_send _ _ = Some _ |- _ => apply safe_send_eq in E; destruct E; subst
-         | E : raw_send _ _ = Some _ |- _ => apply raw_send_eq in E; subst
+         | E : lsafe_send _ _ = Some _ |- _ => apply safe_send_eq in E; destruct E; subst
+         | E : lraw_send _ _ = Some _ |- _ => apply raw_send_eq in E; subst
          end.
-Ltac inv_p H := match type of H with pstep _ _ _ ?p _ _ = _ => destruct p end; brute H.
-Ltac inv_i H := match type of H with istep _ _ ?i _ _ = _ => destruct i end; brute H.
+Ltac inv_p H := match type of H with lpstep _ _ _ ?p _ _ = _ => destruct p end; brute H.
+Ltac inv_i H := match type of H with listep _ _ ?i _ _ = _ => destruct i end; brute H.
 
 Lemma p_weight : forall c tid ch p a S p' code' S' ev,
-  pstep c tid ch p a S = Some (p', code', S', ev) -> weight p <= life S ->
-  life S' + weight p + tokens S = life S + weight p' + tokens S'.
+  lpstep c tid ch p a S = Some (p', code', S', ev) -> lweight p <= life S ->
+  life S' + lweight p + tokens S = life S + lweight p' + tokens S'.
 Proof. intros c tid ch p a S p' code' S' ev H Hw. inv_p H; simpl in *; try lia. Qed.
 Lemma i_weight : forall c tid i rest S code' S' ev,
-  istep c tid i rest S = Some (code', S', ev) -> life S' = life S /\ tokens S' = tokens S.
+  listep c tid i rest S = Some (code', S', ev) -> life S' = life S /\ tokens S' = tokens S.
 Proof. intros c tid i rest S code' S' ev H. inv_i H; simpl in *; auto. Qed.
 
-(* ------------------------------------------------------------------ local facts about pc transitions *)
-Definition pev_ok (tid : nat) (p p' : pc) (S : shared) (ev : list event) : Prop :=
+(* ------------------------------------------------------------------ local facts about lpc transitions *)
+Definition pev_ok (tid : nat) (p p' : lpc) (S : lshared) (ev : list levent) : Prop :=
   match ev with
   | [] => in_stop p' = in_stop p
   | [EStopBegin t] => t = tid /\ in_stop p = false /\ in_stop p' = true
-  | [EStopReturn t j] => t = tid /\ p = StReturn j /\ p' = Done
+  | [EStopReturn t j] => t = tid /\ p = StReturn j /\ p' = LDone
   | [ESinkBegin _ _] => False
   | [ESinkEnd _] => False
   | [ESyncBegin t] => t = tid /\ in_stop p' = in_stop p /\ (stopped S = true -> p' = SyEnd false)
-  | [ESyncEnd t ok] => t = tid /\ p = SyEnd ok /\ p' = Done
+  | [ESyncEnd t ok] => t = tid /\ p = SyEnd ok /\ p' = LDone
   | [ETimeout] => False
   | [EGoroutines _ _] => False
   | [_] => in_stop p' = in_stop p
@@ -119,82 +119,82 @@ Definition pev_ok (tid : nat) (p p' : pc) (S : shared) (ev : list event) : Prop 
   end.
 
 Lemma p_code : forall c tid ch p a S p' code' S' ev,
-  pstep c tid ch p a S = Some (p', code', S', ev) -> code' = [] \/ (busy p' = true /\ is_rg p' = false).
+  lpstep c tid ch p a S = Some (p', code', S', ev) -> code' = [] \/ (busy p' = true /\ is_rg p' = false).
 Proof. intros c tid ch p a S p' code' S' ev H. inv_p H; simpl; auto. Qed.
 
 Lemma p_syu : forall c tid ch p a S p' code' S' ev, c_track_sync c = true ->
-  pstep c tid ch p a S = Some (p', code', S', ev) -> is_syu p' = false.
+  lpstep c tid ch p a S = Some (p', code', S', ev) -> is_syu p' = false.
 Proof. intros c tid ch p a S p' code' S' ev Ht H. inv_p H; simpl; auto; congruence. Qed.
 
 Lemma p_mono : forall c tid ch p a S p' code' S' ev,
-  pstep c tid ch p a S = Some (p', code', S', ev) ->
+  lpstep c tid ch p a S = Some (p', code', S', ev) ->
   (stopped S = true -> stopped S' = true) /\ (joined S = true -> joined S' = true).
 Proof. intros c tid ch p a S p' code' S' ev H. inv_p H; simpl; split; intros; auto; congruence. Qed.
 
 Lemma p_ev : forall c tid ch p a S p' code' S' ev, c_track_sync c = true ->
-  pstep c tid ch p a S = Some (p', code', S', ev) -> pev_ok tid p p' S ev.
+  lpstep c tid ch p a S = Some (p', code', S', ev) -> pev_ok tid p p' S ev.
 Proof. intros c tid ch p a S p' code' S' ev Ht H. inv_p H; simpl; auto; try congruence; repeat split; auto; congruence. Qed.
 
 Lemma p_after_flag : forall c tid ch p a S p' code' S' ev,
-  pstep c tid ch p a S = Some (p', code', S', ev) -> after_flag p' = true -> after_flag p = true \/ stopped S' = true.
+  lpstep c tid ch p a S = Some (p', code', S', ev) -> after_flag p' = true -> after_flag p = true \/ stopped S' = true.
 Proof. intros c tid ch p a S p' code' S' ev H. inv_p H; simpl; auto. Qed.
 
 Lemma p_joined : forall c tid ch p a S p' code' S' ev,
-  pstep c tid ch p a S = Some (p', code', S', ev) -> joined S' = true -> joined S = true \/ (life S' = 0 /\ p = StJoin).
+  lpstep c tid ch p a S = Some (p', code', S', ev) -> joined S' = true -> joined S = true \/ (life S' = 0 /\ p = StJoin).
 Proof. intros c tid ch p a S p' code' S' ev H. inv_p H; simpl; auto. Qed.
 
 Lemma p_winner : forall c tid ch p a S p' code' S' ev,
-  pstep c tid ch p a S = Some (p', code', S', ev) -> winner_pending p = true ->
+  lpstep c tid ch p a S = Some (p', code', S', ev) -> winner_pending p = true ->
   winner_pending p' = true \/ joined S' = true \/ ev = [EStopReturn tid false].
 Proof. intros c tid ch p a S p' code' S' ev H. inv_p H; simpl; intros; auto; try discriminate; try congruence.
   destruct join; try discriminate; auto. Qed.
 
 Lemma p_winner_new : forall c tid ch p a S p' code' S' ev,
-  pstep c tid ch p a S = Some (p', code', S', ev) -> stopped S = false -> stopped S' = true -> winner_pending p' = true.
+  lpstep c tid ch p a S = Some (p', code', S', ev) -> stopped S = false -> stopped S' = true -> winner_pending p' = true.
 Proof. intros c tid ch p a S p' code' S' ev H. inv_p H; simpl; auto; congruence. Qed.
 
 Lemma p_working : forall c tid ch p a S p' code' S' ev,
-  pstep c tid ch p a S = Some (p', code', S', ev) -> stop_working p' = true -> stop_working p = true \/ stopped S = false.
+  lpstep c tid ch p a S = Some (p', code', S', ev) -> stop_working p' = true -> stop_working p = true \/ stopped S = false.
 Proof. intros c tid ch p a S p' code' S' ev H. inv_p H; simpl; auto; try discriminate. Qed.
 
 Lemma p_late : forall c tid ch p a S p' code' S' ev,
-  pstep c tid ch p a S = Some (p', code', S', ev) -> p = SyEnd false \/ p = Done -> p' = Done.
+  lpstep c tid ch p a S = Some (p', code', S', ev) -> p = SyEnd false \/ p = LDone -> p' = LDone.
 Proof. intros c tid ch p a S p' code' S' ev H [E|E]; subst; simpl in H; inversion H; auto. Qed.
 
 Lemma p_life0 : forall c tid ch p a S p' code' S' ev, c_track_sync c = true ->
-  pstep c tid ch p a S = Some (p', code', S', ev) -> stopped S = true -> life S = 0 -> life S' = 0.
+  lpstep c tid ch p a S = Some (p', code', S', ev) -> stopped S = true -> life S = 0 -> life S' = 0.
 Proof. intros c tid ch p a S p' code' S' ev Ht H Hs Hl. inv_p H; simpl in *; try lia; try congruence. Qed.
 
 (* ------------------------------------------------------------------ local facts about instructions *)
 Lemma i_flags : forall c tid i rest S code' S' ev,
-  istep c tid i rest S = Some (code', S', ev) -> stopped S' = stopped S /\ joined S' = joined S.
+  listep c tid i rest S = Some (code', S', ev) -> stopped S' = stopped S /\ joined S' = joined S.
 Proof. intros c tid i rest S code' S' ev H. inv_i H; simpl in *; auto. Qed.
 
 Lemma existsb_sinky_calls_false : forall l, existsb sinky l = false -> True. Proof. auto. Qed.
 
 Lemma i_sinky : forall c tid i rest S code' S' ev,
-  istep c tid i rest S = Some (code', S', ev) -> existsb sinky code' = true -> existsb sinky (i :: rest) = true.
+  listep c tid i rest S = Some (code', S', ev) -> existsb sinky code' = true -> existsb sinky (i :: rest) = true.
 Proof.
   intros c tid i rest S code' S' ev H. inv_i H; simpl in *; auto; intros E.
   all: try (rewrite existsb_app in E; simpl in E; rewrite existsb_sinky_acts in E; simpl in E; auto; fail).
   all: try (apply existsb_sinky_unwind; auto; fail).
 Qed.
 
-Definition iev_ok (tid : nat) (i : instr) (ev : list event) : Prop :=
+Definition iev_ok (tid : nat) (i : linstr) (ev : list levent) : Prop :=
   match ev with
   | [] => True
   | [ESinkBegin t fl] => t = tid /\ exists k, i = ICall k fl
   | [ESinkEnd t] => t = tid
   | _ => False
   end.
-Lemma i_ev : forall c tid i rest S code' S' ev, istep c tid i rest S = Some (code', S', ev) -> iev_ok tid i ev.
+Lemma i_ev : forall c tid i rest S code' S' ev, listep c tid i rest S = Some (code', S', ev) -> iev_ok tid i ev.
 Proof. intros c tid i rest S code' S' ev H. inv_i H; simpl; eauto. Qed.
 
 (* ------------------------------------------------------------------ the barrier invariant *)
-Lemma cnt_le : forall (f g : pc -> nat) l, (forall p, f p <= g p) -> cnt f l <= cnt g l.
+Lemma cnt_le : forall (f g : lpc -> nat) l, (forall p, f p <= g p) -> cnt f l <= cnt g l.
 Proof. induction l; simpl; intros; auto. specialize (IHl H). specialize (H (t_pc a)). lia. Qed.
 
-Lemma monr_app_inr : forall l l' x, monr l = inr x -> monr (l' ++ l) = inr x.
+Lemma monr_app_inr : forall l l' x, lmonr l = inr x -> lmonr (l' ++ l) = inr x.
 Proof. induction l'; simpl; intros; auto. rewrite (IHl' x); auto. Qed.
 
 Definition fin_stop := fun p => b2n (in_stop p).
@@ -203,8 +203,8 @@ Definition fsw := fun p => b2n (stop_working p).
 Definition fwp := fun p => b2n (winner_pending p).
 Definition fsyu := fun p => b2n (is_syu p).
 
-Record Rel (m : mon) (st : state) : Prop := {
-  rA : life (sh st) = cnt weight (ths st) + tokens (sh st);
+Record Rel (m : lmon) (st : lstate) : Prop := {
+  rA : life (sh st) = cnt lweight (ths st) + tokens (sh st);
   rB : Forall (fun th => codeok th = true) (ths st);
   rC : cnt fsyu (ths st) = 0;
   rF : m_in m = cnt fin_stop (ths st);
@@ -215,36 +215,36 @@ Record Rel (m : mon) (st : state) : Prop := {
   rD : m_bar m = true -> joined (sh st) = true;
   rE : m_bar m = true -> cnt fsw (ths st) = 0;
   rL : forall t, In t (m_late m) ->
-       exists th, nth_error (ths st) t = Some th /\ (t_pc th = SyEnd false \/ t_pc th = Done)
+       exists th, nth_error (ths st) t = Some th /\ (t_pc th = SyEnd false \/ t_pc th = LDone)
 }.
 
-Definition Inv (st : state) : Prop :=
-  monr (trace st) = inr ClStopGrace \/ exists m, monr (trace st) = inl m /\ Rel m st.
+Definition Inv (st : lstate) : Prop :=
+  lmonr (ltrace st) = inr ClStopGrace \/ exists m, lmonr (ltrace st) = inl m /\ Rel m st.
 
 Lemma existsb_eqb_In : forall t l, existsb (Nat.eqb t) l = true -> In t l.
 Proof. intros t l H. apply existsb_exists in H. destruct H as [x [Hx E]]. apply Nat.eqb_eq in E. subst; auto. Qed.
 
-Lemma wp_af : forall q, winner_pending q = true -> after_flag q = true.
-Proof. intros q H; destruct q; simpl in *; auto; discriminate. Qed.
-Lemma wp_le_in : forall q, fwp q <= fin_stop q.
-Proof. intros q; destruct q; unfold fwp, fin_stop; simpl; try lia. all: match goal with b : bool |- _ => destruct b end; simpl; lia. Qed.
-Lemma sw_le_in : forall q, fsw q <= fin_stop q.
-Proof. intros q; destruct q; unfold fsw, fin_stop; simpl; lia. Qed.
+Lemma wp_af : forall dq, winner_pending dq = true -> after_flag dq = true.
+Proof. intros dq H; destruct dq; simpl in *; auto; discriminate. Qed.
+Lemma wp_le_in : forall dq, fwp dq <= fin_stop dq.
+Proof. intros dq; destruct dq; unfold fwp, fin_stop; simpl; try lia. all: match goal with b : bool |- _ => destruct b end; simpl; lia. Qed.
+Lemma sw_le_in : forall dq, fsw dq <= fin_stop dq.
+Proof. intros dq; destruct dq; unfold fsw, fin_stop; simpl; lia. Qed.
 
 Section Barrier.
-Variable c : cfg.
+Variable c : lcfg.
 Hypothesis Htrack : c_track_sync c = true.
 
-(* an instruction step: the pc does not move, flags and the counter stay *)
+(* an instruction lstep: the lpc does not move, flags and the counter stay *)
 Lemma Rel_istep : forall m st tid th i rest code' S' ev,
   Rel m st -> nth_error (ths st) tid = Some th -> t_code th = i :: rest ->
-  istep c tid i rest (sh st) = Some (code', S', ev) ->
+  listep c tid i rest (sh st) = Some (code', S', ev) ->
   (forall t fl, ev = [ESinkBegin t fl] -> m_bar m = false) /\
-  Rel m {| sh := S'; ths := set_nth tid (mk (t_pc th) code' (t_arg th)) (ths st); trace := rev ev ++ trace st |}.
+  Rel m {| sh := S'; ths := lset_nth tid (lmk (t_pc th) code' (t_arg th)) (ths st); ltrace := rev ev ++ ltrace st |}.
 Proof.
   intros m st tid th i rest code' S' ev R Hn Hc Hi.
-  assert (Hcnt : forall f, cnt f (set_nth tid (mk (t_pc th) code' (t_arg th)) (ths st)) = cnt f (ths st)).
-  { intro f. pose proof (cnt_set_nth f _ _ _ (mk (t_pc th) code' (t_arg th)) Hn) as E. simpl in E. lia. }
+  assert (Hcnt : forall f, cnt f (lset_nth tid (lmk (t_pc th) code' (t_arg th)) (ths st)) = cnt f (ths st)).
+  { intro f. pose proof (cnt_set_nth f _ _ _ (lmk (t_pc th) code' (t_arg th)) Hn) as E. simpl in E. lia. }
   destruct (i_weight _ _ _ _ _ _ _ _ Hi) as [Hl Ht]. destruct (i_flags _ _ _ _ _ _ _ _ Hi) as [Hs Hj].
   pose proof (Forall_nth_error _ _ _ _ _ (rB _ _ R) Hn) as Hok. simpl in Hok.
   unfold codeok in Hok. rewrite Hc in Hok. apply andb_true_iff in Hok. destruct Hok as [Hbusy Hrg].
@@ -252,7 +252,7 @@ Proof.
   - intros t fl E. subst ev. pose proof (i_ev _ _ _ _ _ _ _ _ Hi) as Hev. simpl in Hev. destruct Hev as [_ [k Ek]]. subst i.
     destruct (m_bar m) eqn:Hb; auto. exfalso.
     pose proof (rD _ _ R Hb) as J. destruct (rH _ _ R J) as [L0 _].
-    pose proof (rA _ _ R) as A. assert (W : cnt weight (ths st) = 0) by lia.
+    pose proof (rA _ _ R) as A. assert (W : cnt lweight (ths st) = 0) by lia.
     pose proof (cnt_zero _ _ _ _ W Hn) as W0.
     pose proof (cnt_zero _ _ _ _ (rE _ _ R Hb) Hn) as E0. pose proof (cnt_zero _ _ _ _ (rC _ _ R) Hn) as C0.
     unfold fsw, fsyu in *. simpl in Hrg.
@@ -264,7 +264,7 @@ Proof.
       * rewrite (i_sinky _ _ _ _ _ _ _ _ Hi Es') in Hrg. simpl in Hrg. discriminate.
       * simpl in Es'. rewrite Es'. reflexivity.
     + intros t Ht'. destruct (rL _ _ R t Ht') as [th0 [N0 P0]]. destruct (Nat.eq_dec tid t) as [Ee|Ne].
-      * subst t. rewrite Hn in N0. inversion N0; subst th0. exists (mk (t_pc th) code' (t_arg th)). split; auto.
+      * subst t. rewrite Hn in N0. inversion N0; subst th0. exists (lmk (t_pc th) code' (t_arg th)). split; auto.
         eapply nth_error_set_nth_eq; eauto.
       * exists th0. rewrite nth_error_set_nth_neq; auto.
 Qed.
@@ -272,22 +272,22 @@ Qed.
 Lemma b2n_le1 : forall b, b2n b <= 1. Proof. destruct b; simpl; lia. Qed.
 
 Lemma Rel_pstep : forall m st tid ch th p' code' S' ev,
-  Rel m st -> monr (trace st) = inl m ->
+  Rel m st -> lmonr (ltrace st) = inl m ->
   nth_error (ths st) tid = Some th -> t_code th = [] ->
-  pstep c tid ch (t_pc th) (t_arg th) (sh st) = Some (p', code', S', ev) ->
-  Inv {| sh := S'; ths := set_nth tid (mk p' code' (t_arg th)) (ths st); trace := rev ev ++ trace st |}.
+  lpstep c tid ch (t_pc th) (t_arg th) (sh st) = Some (p', code', S', ev) ->
+  Inv {| sh := S'; ths := lset_nth tid (lmk p' code' (t_arg th)) (ths st); ltrace := rev ev ++ ltrace st |}.
 Proof.
   intros m st tid ch th p' code' S' ev R Hm Hn Hc Hp.
-  set (T := ths st) in *. set (T' := set_nth tid (mk p' code' (t_arg th)) T).
+  set (T := ths st) in *. set (T' := lset_nth tid (lmk p' code' (t_arg th)) T).
   set (p := t_pc th) in *. set (S := sh st) in *.
   assert (Hcnt : forall f, cnt f T' + f p = cnt f T + f p').
-  { intro f. apply (cnt_set_nth f T tid th (mk p' code' (t_arg th)) Hn). }
+  { intro f. apply (cnt_set_nth f T tid th (lmk p' code' (t_arg th)) Hn). }
   pose proof (rA _ _ R) as A. fold T S in A.
-  assert (Hwle : weight p <= life S). { pose proof (cnt_ge weight T tid th Hn). fold p in H. lia. }
+  assert (Hwle : lweight p <= life S). { pose proof (cnt_ge lweight T tid th Hn). fold p in H. lia. }
   pose proof (p_weight _ _ _ _ _ _ _ _ _ _ Hp Hwle) as PW.
   destruct (p_mono _ _ _ _ _ _ _ _ _ _ Hp) as [MS MJ].
   pose proof (p_ev _ _ _ _ _ _ _ _ _ _ Htrack Hp) as PE.
-  assert (A' : life S' = cnt weight T' + tokens S'). { pose proof (Hcnt weight). lia. }
+  assert (A' : life S' = cnt lweight T' + tokens S'). { pose proof (Hcnt lweight). lia. }
   assert (B' : Forall (fun th => codeok th = true) T').
   { apply Forall_set_nth; [apply R|]. unfold codeok; simpl. destruct code' as [|i' r'] eqn:Ec; auto.
     destruct (p_code _ _ _ _ _ _ _ _ _ _ Hp) as [E|[E1 E2]]; [discriminate|]. rewrite E1, E2. reflexivity. }
@@ -323,10 +323,10 @@ Proof.
     destruct (stop_working p') eqn:Ew.
     - destruct (p_working _ _ _ _ _ _ _ _ _ _ Hp Ew) as [E1|E1]; [|congruence]. change (fsw p) with (b2n (stop_working p)) in Z. rewrite E1 in Z. discriminate.
     - change (fsw p') with (b2n (stop_working p')) in E. rewrite Ew in E. simpl in E. lia. }
-  assert (L' : forall t, (exists th0, nth_error T t = Some th0 /\ (t_pc th0 = SyEnd false \/ t_pc th0 = Done)) ->
-                         exists th0, nth_error T' t = Some th0 /\ (t_pc th0 = SyEnd false \/ t_pc th0 = Done)).
+  assert (L' : forall t, (exists th0, nth_error T t = Some th0 /\ (t_pc th0 = SyEnd false \/ t_pc th0 = LDone)) ->
+                         exists th0, nth_error T' t = Some th0 /\ (t_pc th0 = SyEnd false \/ t_pc th0 = LDone)).
   { intros t [th0 [N0 P0]]. destruct (Nat.eq_dec tid t) as [Ee|Ne].
-    - subst t. rewrite Hn in N0. inversion N0; subst th0. exists (mk p' code' (t_arg th)). split.
+    - subst t. rewrite Hn in N0. inversion N0; subst th0. exists (lmk p' code' (t_arg th)). split.
       + eapply nth_error_set_nth_eq; eauto.
       + right. simpl. eapply p_late; eauto.
     - exists th0. unfold T'. rewrite nth_error_set_nth_neq; auto. }
@@ -335,17 +335,17 @@ Proof.
      m_in m' = cnt fin_stop T' -> (1 <= m_ret m' -> stopped S' = true) ->
      (stopped S' = true -> joined S' = true \/ 1 <= cnt fwp T') ->
      (m_bar m' = true -> joined S' = true) -> (m_bar m' = true -> cnt fsw T' = 0) ->
-     (forall t, In t (m_late m') -> exists th0, nth_error T' t = Some th0 /\ (t_pc th0 = SyEnd false \/ t_pc th0 = Done)) ->
-     Rel m' {| sh := S'; ths := T'; trace := rev ev ++ trace st |}).
+     (forall t, In t (m_late m') -> exists th0, nth_error T' t = Some th0 /\ (t_pc th0 = SyEnd false \/ t_pc th0 = LDone)) ->
+     Rel m' {| sh := S'; ths := T'; ltrace := rev ev ++ ltrace st |}).
   { intros. constructor; simpl; auto. }
   pose proof (rF _ _ R) as F0. fold T in F0. pose proof (Hcnt fin_stop) as EF.
   assert (G0 : 1 <= m_ret m -> stopped S' = true). { intro G. apply MS. apply (rG _ _ R G). }
   assert (D0 : m_bar m = true -> joined S' = true). { intro G. apply MJ. apply (rD _ _ R G). }
   assert (E0 : m_bar m = true -> cnt fsw T' = 0). { intro G. apply E'. apply (rD _ _ R G). apply (rE _ _ R G). }
-  assert (L0 : forall t, In t (m_late m) -> exists th0, nth_error T' t = Some th0 /\ (t_pc th0 = SyEnd false \/ t_pc th0 = Done)).
+  assert (L0 : forall t, In t (m_late m) -> exists th0, nth_error T' t = Some th0 /\ (t_pc th0 = SyEnd false \/ t_pc th0 = LDone)).
   { intros t Ht. apply L'. apply (rL _ _ R t Ht). }
-  (* same monitor state *)
-  assert (Same : in_stop p' = in_stop p -> ev <> [EStopReturn tid false] -> Rel m {| sh := S'; ths := T'; trace := rev ev ++ trace st |}).
+  (* same monitor lstate *)
+  assert (Same : in_stop p' = in_stop p -> ev <> [EStopReturn tid false] -> Rel m {| sh := S'; ths := T'; ltrace := rev ev ++ ltrace st |}).
   { intros Ei Nev. apply Build; auto. change (fin_stop p) with (b2n (in_stop p)) in EF. change (fin_stop p') with (b2n (in_stop p')) in EF. rewrite Ei in EF. lia. }
   unfold Inv. simpl.
   destruct ev as [|e [|e2 ev2]]; simpl in PE; try contradiction.
@@ -373,7 +373,7 @@ Proof.
         apply Build; simpl; [ | exact G0 | apply J'; discriminate | intros _; apply D0; reflexivity | intros _; apply E0; reflexivity | ].
         -- change (fin_stop p) with (b2n (in_stop p)) in EF. change (fin_stop p') with (b2n (in_stop p')) in EF. rewrite E1 in EF. lia.
         -- intros t [Et|Ht]; [|apply L0; exact Ht]. subst t. destruct (rH _ _ R (rD _ _ R Hb)) as [_ S0]. fold S in S0.
-           exists (mk p' code' (t_arg th)). split. { eapply nth_error_set_nth_eq; eauto. } left. simpl. auto.
+           exists (lmk p' code' (t_arg th)). split. { eapply nth_error_set_nth_eq; eauto. } left. simpl. auto.
       * right. exists m. split; auto. apply Same; auto. discriminate.
     + (* ESyncEnd *) destruct PE as [-> [E1 E2]].
       assert (Hnot : ok && existsb (Nat.eqb tid) (m_late m) = false).
@@ -389,11 +389,11 @@ Qed.
 End Barrier.
 
 (* ------------------------------------------------------------------ the invariant along every schedule *)
-Lemma Inv_step : forall c tid ch st st', c_track_sync c = true -> Inv st -> step c tid ch st = Some st' -> Inv st'.
+Lemma Inv_step : forall c tid ch st st', c_track_sync c = true -> Inv st -> lstep c tid ch st = Some st' -> Inv st'.
 Proof.
-  intros c tid ch st st' Ht I H. unfold step in H.
+  intros c tid ch st st' Ht I H. unfold lstep in H.
   destruct (nth_error (ths st) tid) as [th|] eqn:Hn; try discriminate.
-  destruct (tstep c tid ch th (sh st)) as [[[th' S'] ev]|] eqn:Hs; try discriminate.
+  destruct (ltstep c tid ch th (sh st)) as [[[th' S'] ev]|] eqn:Hs; try discriminate.
   inversion H; subst; clear H.
   destruct I as [G|[m [Hm R]]].
   - left. simpl. apply monr_app_inr; auto.
@@ -408,13 +408,13 @@ Proof.
     + eapply Rel_pstep; eauto.
 Qed.
 
-Lemma cnt_spawn_zero : forall f roles, (forall r, f (t_pc (spawn r)) = 0) -> cnt f (map spawn roles) = 0.
+Lemma cnt_spawn_zero : forall f roles, (forall r, f (t_pc (lspawn r)) = 0) -> cnt f (map lspawn roles) = 0.
 Proof. induction roles; simpl; intros; auto. rewrite H, IHroles; auto. Qed.
 
-Lemma Inv_init : forall cap0 async sync roles, Inv (init cap0 async sync roles).
+Lemma Inv_init : forall cap0 async sync roles, Inv (linit cap0 async sync roles).
 Proof.
-  intros. right. exists mon0. split; [reflexivity|].
-  assert (Z : forall f, (forall r, f (t_pc (spawn r)) = 0) -> cnt f (map spawn roles) = 0) by (intros; apply cnt_spawn_zero; auto).
+  intros. right. exists lmon0. split; [reflexivity|].
+  assert (Z : forall f, (forall r, f (t_pc (lspawn r)) = 0) -> cnt f (map lspawn roles) = 0) by (intros; apply cnt_spawn_zero; auto).
   constructor; simpl; try discriminate; try (intros; contradiction).
   - rewrite total_weight_cnt. lia.
   - apply Forall_forall. intros th Hin. apply in_map_iff in Hin. destruct Hin as [r [E _]]. subst th. destruct r; reflexivity.
@@ -424,28 +424,28 @@ Proof.
   - intro G. lia.
 Qed.
 
-Lemma Inv_run : forall c sched st, c_track_sync c = true -> Inv st -> Inv (run c sched st).
+Lemma Inv_run : forall c sched st, c_track_sync c = true -> Inv st -> Inv (lrun c sched st).
 Proof.
   intros c sched. induction sched as [|e r IH]; intros st Ht I; simpl; auto.
-  apply IH; auto. unfold step_or_skip. destruct (step c (fst e) (snd e) st) eqn:E; auto. eapply Inv_step; eauto.
+  apply IH; auto. unfold lstep_or_skip. destruct (lstep c (fst e) (snd e) st) eqn:E; auto. eapply Inv_step; eauto.
 Qed.
 
-(* stop_barrier: on every schedule of every configuration of the repaired protocol, the observable trace
+(* stop_barrier: on every schedule of every configuration of the repaired protocol, the observable ltrace
    satisfies the monitor; the only thing that can go "wrong" is that a Stop gave up after its grace period. *)
 Theorem stop_barrier : forall c cap0 async sync roles sched, c_track_sync c = true ->
-  chk_state (run c sched (init cap0 async sync roles)) = None \/
-  chk_state (run c sched (init cap0 async sync roles)) = Some ClStopGrace.
+  chk_state (lrun c sched (linit cap0 async sync roles)) = None \/
+  chk_state (lrun c sched (linit cap0 async sync roles)) = Some ClStopGrace.
 Proof.
   intros. unfold chk_state. destruct (Inv_run c sched _ H (Inv_init cap0 async sync roles)) as [G|[m [G _]]]; rewrite G; auto.
 Qed.
 
-(* state form: once some Stop went through the drained branch of waitLifecycle, the lifecycle counter is
-   0 for ever, no tracked goroutine is alive, no consumer goroutine is pending, and no thread of the system
-   has a sink invocation (or anything that leads to one) left to execute. *)
+(* lstate form: once some Stop went through the drained branch of waitLifecycle, the lifecycle counter is
+   0 for ever, no tracked goroutine is alive, no consumer goroutine is pending, and no lthread of the system
+   has a lsink invocation (or anything that leads to one) left to execute. *)
 Theorem joined_drained : forall c cap0 async sync roles sched, c_track_sync c = true ->
-  let st := run c sched (init cap0 async sync roles) in
+  let st := lrun c sched (linit cap0 async sync roles) in
   chk_state st = None -> joined (sh st) = true ->
-  life (sh st) = 0 /\ tokens (sh st) = 0 /\ stopped (sh st) = true /\ cnt weight (ths st) = 0.
+  life (sh st) = 0 /\ tokens (sh st) = 0 /\ stopped (sh st) = true /\ cnt lweight (ths st) = 0.
 Proof.
   intros c cap0 async sync roles sched Ht st Hc J. unfold chk_state in Hc.
   destruct (Inv_run c sched _ Ht (Inv_init cap0 async sync roles)) as [G|[m [G R]]]; fold st in G; rewrite G in Hc; try discriminate.
@@ -453,105 +453,105 @@ Proof.
 Qed.
 
 (* ------------------------------------------------------------------ idempotence, Emit after Stop, panics *)
-(* A Stop issued when the flag is already set: three own steps, shared state untouched, whatever the
+(* A Stop issued when the flag is already set: three own steps, lshared lstate untouched, whatever the
    other threads are doing. *)
 Lemma step_pc : forall c tid ch st p a p' code' S' ev,
-  nth_error (ths st) tid = Some (mk p [] a) -> pstep c tid ch p a (sh st) = Some (p', code', S', ev) ->
-  step_or_skip c st (tid, ch) = {| sh := S'; ths := set_nth tid (mk p' code' a) (ths st); trace := rev ev ++ trace st |}.
-Proof. intros. unfold step_or_skip, step. simpl. rewrite H. unfold tstep. simpl. rewrite H0. reflexivity. Qed.
-Lemma set_nth_twice : forall A (l : list A) n x y, set_nth n x (set_nth n y l) = set_nth n x l.
+  nth_error (ths st) tid = Some (lmk p [] a) -> lpstep c tid ch p a (sh st) = Some (p', code', S', ev) ->
+  lstep_or_skip c st (tid, ch) = {| sh := S'; ths := lset_nth tid (lmk p' code' a) (ths st); ltrace := rev ev ++ ltrace st |}.
+Proof. intros. unfold lstep_or_skip, lstep. simpl. rewrite H. unfold ltstep. simpl. rewrite H0. reflexivity. Qed.
+Lemma set_nth_twice : forall A (l : list A) n x y, lset_nth n x (lset_nth n y l) = lset_nth n x l.
 Proof. induction l as [|h l IH]; intros [|n] x y; simpl; auto. rewrite IH. reflexivity. Qed.
 
 Theorem stop_idempotent : forall c tid a st c1 c2 c3,
-  nth_error (ths st) tid = Some (mk StBegin [] a) -> stopped (sh st) = true ->
-  run c [(tid, c1); (tid, c2); (tid, c3)] st =
-  {| sh := sh st; ths := set_nth tid (mk Done [] a) (ths st);
-     trace := EStopReturn tid true :: EStopBegin tid :: trace st |}.
+  nth_error (ths st) tid = Some (lmk StBegin [] a) -> stopped (sh st) = true ->
+  lrun c [(tid, c1); (tid, c2); (tid, c3)] st =
+  {| sh := sh st; ths := lset_nth tid (lmk LDone [] a) (ths st);
+     ltrace := EStopReturn tid true :: EStopBegin tid :: ltrace st |}.
 Proof.
-  intros c tid a st c1 c2 c3 Hn Hs. unfold run. simpl.
+  intros c tid a st c1 c2 c3 Hn Hs. unfold lrun. simpl.
   rewrite (step_pc c tid c1 st StBegin a StFlag [] (sh st) [EStopBegin tid] Hn eq_refl).
   erewrite (step_pc c tid c2 _ StFlag a (StReturn true) [] (sh st) []).
   2:{ simpl. eapply nth_error_set_nth_eq; eauto. }
   2:{ simpl. rewrite Hs. reflexivity. }
-  erewrite (step_pc c tid c3 _ (StReturn true) a Done [] (sh st) [EStopReturn tid true]).
+  erewrite (step_pc c tid c3 _ (StReturn true) a LDone [] (sh st) [EStopReturn tid true]).
   2:{ simpl. eapply nth_error_set_nth_eq. eapply nth_error_set_nth_eq; eauto. }
   2:{ reflexivity. }
   simpl. rewrite !set_nth_twice. reflexivity.
 Qed.
 
 (* Emit on a stopped stream whose channel pointer is nil (Stop sets both before it joins): at most two
-   own steps, never blocked, shared state untouched, nothing enqueued -- for the three strategies. *)
+   own steps, never blocked, lshared lstate untouched, nothing enqueued -- for the three strategies. *)
 Theorem emit_after_stop_noop : forall c tid ch a s, stopped s = true -> ptr_nil s = true ->
-  exists p', pstep c tid ch PdStart a s = Some (p', [], s, []) /\
-             (p' = Done \/ (p' = PdDropGet /\ forall ch', pstep c tid ch' PdDropGet a s = Some (Done, [], s, []))).
+  exists p', lpstep c tid ch PdStart a s = Some (p', [], s, []) /\
+             (p' = LDone \/ (p' = PdDropGet /\ forall ch', lpstep c tid ch' PdDropGet a s = Some (LDone, [], s, []))).
 Proof.
-  intros c tid ch a s Hs Hn. simpl. unfold safe_send. rewrite Hs, Hn. destruct (c_strategy c).
+  intros c tid ch a s Hs Hn. simpl. unfold lsafe_send. rewrite Hs, Hn. destruct (c_strategy c).
   - exists PdDropGet. split; auto.
-  - exists Done. split; auto.
-  - exists Done. split; auto.
+  - exists LDone. split; auto.
+  - exists LDone. split; auto.
 Qed.
 
-Lemma unwind_acts : forall post rest, unwind (map IAct post ++ IEnd :: rest) = IEnd :: rest.
+Lemma unwind_acts : forall post rest, lunwind (map IAct post ++ IEnd :: rest) = IEnd :: rest.
 Proof. induction post; simpl; auto. Qed.
 
-(* a panic anywhere inside a sink lands on the wrapper's recover: the rest of the sink body is skipped,
-   everything after it (the remaining sinks of the batch, the unlock, the goroutine's loop) is intact,
-   shared state untouched *)
+(* a panic anywhere inside a lsink lands on the wrapper's recover: the rest of the lsink body is skipped,
+   everything after it (the remaining asinks of the batch, the unlock, the goroutine's loop) is intact,
+   lshared lstate untouched *)
 Theorem panic_isolated_sink : forall c tid post rest s,
-  istep c tid (IAct APanic) (map IAct post ++ IEnd :: rest) s = Some (IEnd :: rest, s, []).
+  listep c tid (IAct APanic) (map IAct post ++ IEnd :: rest) s = Some (IEnd :: rest, s, []).
 Proof. intros. simpl. rewrite unwind_acts. reflexivity. Qed.
 
 (* a row that panics inside processItem leaves the processor exactly where a filtered row leaves it *)
-Theorem panic_isolated_row : forall c tid a s id r, q s = id :: r ->
-  pstep c tid 2 PrSelect a s = Some (PrLoop, [], upd_q s r, [EProc id true]) /\
-  pstep c tid 1 PrSelect a s = Some (PrLoop, [], upd_q s r, [EProc id false]).
+Theorem panic_isolated_row : forall c tid a s id r, dq s = id :: r ->
+  lpstep c tid 2 PrSelect a s = Some (PrLoop, [], upd_q s r, [EProc id true]) /\
+  lpstep c tid 1 PrSelect a s = Some (PrLoop, [], upd_q s r, [EProc id false]).
 Proof. intros. simpl. rewrite H. auto. Qed.
 
 (* a window batch that panics (repaired consumer) leaves the consumer exactly where an empty result leaves it *)
 Theorem panic_isolated_batch : forall c tid a s, c_batch_recover c = true ->
-  pstep c tid 2 CoLoop a s = pstep c tid 1 CoLoop a s.
+  lpstep c tid 2 CoLoop a s = lpstep c tid 1 CoLoop a s.
 Proof. intros. simpl. destruct (wq s); auto. rewrite H. reflexivity. Qed.
 
 (* a finished goroutine never moves again *)
-Lemma done_never_steps : forall c tid ch a s, tstep c tid ch (mk Done [] a) s = None.
+Lemma done_never_steps : forall c tid ch a s, ltstep c tid ch (lmk LDone [] a) s = None.
 Proof. reflexivity. Qed.
 
 (* ------------------------------------------------------------------ witnesses: the code as found *)
-Definition cfg_of (fixed track brec w cep : bool) : cfg :=
+Definition cfg_of (fixed track brec w cep : bool) : lcfg :=
   {| c_fixed_lock := fixed; c_track_sync := track; c_batch_recover := brec; c_window := w; c_cep := cep;
      c_strategy := SDrop; c_block_timeout := false; c_pool_cap := 1; c_max_cap := 4 |}.
 Definition rep (n : nat) (e : nat * nat) : list (nat * nat) := repeat e n.
 
-(* F11: EmitSync (or the processor) runs a synchronous sink that calls AddSink while callSinksAsync holds the read lock *)
-Definition f11_state (fixed : bool) : state :=
-  run (cfg_of fixed true true false false) (rep 5 (0, 0)) (init 4 [] [[AAddSink false]] [RSync; RStopper]).
-Lemma f11_stuck : lock_stuckb (cfg_of false true true false false) (f11_state false) = true.
+(* F11: EmitSync (or the processor) runs a synchronous lsink that lcalls AddSink while callSinksAsync holds the read lock *)
+Definition f11_state (fixed : bool) : lstate :=
+  lrun (cfg_of fixed true true false false) (rep 5 (0, 0)) (linit 4 [] [[AAddSink false]] [RSync; RStopper]).
+Lemma f11_stuck : llock_stuckb (cfg_of false true true false false) (f11_state false) = true.
 Proof. vm_compute. reflexivity. Qed.
-Lemma f11_repaired_not_stuck : lock_stuckb (cfg_of true true true false false) (f11_state true) = false.
+Lemma f11_repaired_not_stuck : llock_stuckb (cfg_of true true true false false) (f11_state true) = false.
 Proof. vm_compute. reflexivity. Qed.
 
-(* F18a: EmitSync after Stop returned invokes the synchronous sink *)
-Definition f18a_trace (track : bool) : state :=
-  run (cfg_of true track true false false) (rep 9 (0, 0) ++ rep 5 (1, 0)) (init 4 [] [[]] [RStopper; RSync]).
+(* F18a: EmitSync after Stop returned invokes the synchronous lsink *)
+Definition f18a_trace (track : bool) : lstate :=
+  lrun (cfg_of true track true false false) (rep 9 (0, 0) ++ rep 5 (1, 0)) (linit 4 [] [[]] [RStopper; RSync]).
 Lemma f18a_violation : chk_state (f18a_trace false) = Some ClSinkAfterStop.
 Proof. vm_compute. reflexivity. Qed.
-Lemma f18a_repaired : chk_state (f18a_trace true) = None /\ In (ESyncEnd 1 false) (trace (f18a_trace true)).
+Lemma f18a_repaired : chk_state (f18a_trace true) = None /\ In (ESyncEnd 1 false) (ltrace (f18a_trace true)).
 Proof. vm_compute. auto. Qed.
 
 (* F18b: a panicking batch ends the window-output consumer; the next batch is never taken *)
-Definition f18b_state (brec : bool) : state :=
-  run (cfg_of true true brec true false) [(0,0); (0,0); (1,0); (2,0); (1,2); (1,0); (3,0)]
-      (init 4 [] [[]] [RProcessor; RConsumer; RTrigger; RTrigger]).
-Lemma f18b_dead : nth_error (ths (f18b_state false)) 1 = Some (mk Done [] 0) /\ wq (sh (f18b_state false)) = 1
+Definition f18b_state (brec : bool) : lstate :=
+  lrun (cfg_of true true brec true false) [(0,0); (0,0); (1,0); (2,0); (1,2); (1,0); (3,0)]
+      (linit 4 [] [[]] [RProcessor; RConsumer; RTrigger; RTrigger]).
+Lemma f18b_dead : nth_error (ths (f18b_state false)) 1 = Some (lmk LDone [] 0) /\ wq (sh (f18b_state false)) = 1
                   /\ closed (sh (f18b_state false)) = false.
 Proof. vm_compute. auto. Qed.
-Lemma f18b_repaired : enabledb (cfg_of true true true true false) 1 (f18b_state true) = true.
+Lemma f18b_repaired : lenabledb (cfg_of true true true true false) 1 (f18b_state true) = true.
 Proof. vm_compute. reflexivity. Qed.
 
-(* F18c: a Stop that loses the CAS returns at once, while the winner is still waiting and a sink begins later *)
-Definition f18c_state : state :=
-  run (cfg_of true true true false false)
-      ([(0,0)] ++ rep 6 (1,0) ++ rep 3 (2,0) ++ rep 3 (0,0)) (init 4 [] [[]] [RSync; RStopper; RStopper]).
-Lemma f18c_loser_early : rev (trace f18c_state) =
+(* F18c: a Stop that loses the CAS returns at once, while the winner is still waiting and a lsink begins later *)
+Definition f18c_state : lstate :=
+  lrun (cfg_of true true true false false)
+      ([(0,0)] ++ rep 6 (1,0) ++ rep 3 (2,0) ++ rep 3 (0,0)) (linit 4 [] [[]] [RSync; RStopper; RStopper]).
+Lemma f18c_loser_early : rev (ltrace f18c_state) =
   [ESyncBegin 0; EStopBegin 1; EStopBegin 2; EStopReturn 2 true; ESinkBegin 0 false].
 Proof. vm_compute. reflexivity. Qed.
